@@ -16,7 +16,9 @@ expansion parameter tan(beta) v^2/M^2 is O(1) at 1 TeV, so the first step is not
 Both are correct behaviour of GM2Calc, not defects, and must not be reported.  The decision is
 therefore the crossing-robust consequence of the statement:
   * all values finite;
-  * envelope: for every rung m >= 2, |a_m| <= max_{k<m} 0.45^(m-k) |a_k|  (some earlier rung bounds it);
+  * envelope: for every rung m >= 2, |a_m| <= max_{k<m} 0.45^(m-k) |a_k|  (some earlier rung bounds it; k runs
+    over the main rungs and over three half-step rungs M_n 10^(1/4), k = n + 1/2, evaluated only as anchors,
+    because a contribution with two zeros can be accidentally small at two main rungs);
   * a literal failure of step n >= 1 is accepted only if that envelope holds with k = 0..n;
   * a literal failure of the first step (1 -> 3.16 TeV) is accepted only if the contribution
     decouples literally from 3.16 TeV on (and then only rungs k >= 1 may serve as anchors).
@@ -44,13 +46,13 @@ HARNESSES = [(("thdm", "plain", ["thdm.cpp"]), {})]
 
 ZETAS = [-100.0, -1.0, 0.0, 1.0, 100.0]
 MH_LADDER = [60.0, 90.0, 125.09, 200.0, 500.0]
-DIMS_I = ["mH", "mA", "mHp", "tb", "l6", "l7", "m122", "yt", "ckm",
+DIMS_I = ["mH", "mA", "mHp", "tb", "l6", "l7", "m122", "yt", "ckm", "sm",
           "zu", "zd", "zl", "Du", "Dd", "Dl", "Pu", "Pd", "Pl"]
 ALPHA_I = {
     "mH": [550.0, 800.0, 1e4], "mA": [10.0, 300.0, 1e4], "mHp": [10.0, 300.0, 1e4],
     "tb": [0.05, 0.5, 1.0, 3.0, 50.0, 200.0],
     "l6": [-3.0, 0.0, 0.2, 3.0], "l7": [-3.0, 0.0, 0.2, 3.0], "m122": [-1e4, 0.0, 4e4],
-    "yt": [1, 2, 3, 4, 5, 6], "ckm": [0, 1, 2],
+    "yt": [1, 2, 3, 4, 5, 6], "ckm": [0, 1, 2], "sm": ["default", "alt"],
     "zu": ZETAS, "zd": ZETAS, "zl": ZETAS,
     "Du": T.MAT_NAMES, "Dd": T.MAT_NAMES, "Dl": T.MAT_NAMES,
     "Pu": T.MAT_NAMES, "Pd": T.MAT_NAMES, "Pl": T.MAT_NAMES,
@@ -63,6 +65,12 @@ BASES_I = [
     dict(mH=550.0, mA=10.0, mHp=1e4, tb=0.5, l6=3.0, l7=-3.0, m122=-1e4, yt=6, ckm=2,
          zu=0.0, zd=0.0, zl=0.0, Du="0", Dd="0", Dl="0", Pu="dense", Pd="e12", Pl="m22"),
 ]
+
+for _i, _b in enumerate(BASES_I):
+    _b["sm"] = "alt" if _i == 1 else "default"
+# SM input sets: gm2calc::SM defaults / complete alternate set (MW, MZ, alpha_em, alpha_s, nine fermion masses);
+# m_hSM is always set to the model's own m_h by the second construction
+SM_SETS = {"default": None, "alt": T.SM_ALT}
 
 LAMS = [-2.0, -0.5, 0.0, 0.5, 2.0]
 DIMS_L = ["l%d" % i for i in range(1, 8)]
@@ -89,23 +97,25 @@ COMP = ((0, "1L"), (2, "2LF"), (3, "2LB"))
 
 
 def brief(c):
-    return "%s p=%s type=%s run=%d ckm=%d mhSM=%s zeta=%s Delta=%s Pi=%s" % (
-        c["basis"], ["%g" % x for x in c["p"]], T.TYPES[c["ytype"]], c["run"], c["ckm"], c["mhsm"], c["z"], c["D"], c["P"])
+    return "%s p=%s type=%s run=%d ckm=%d mhSM=%s zeta=%s Delta=%s Pi=%s SM=%s" % (
+        c["basis"], ["%g" % x for x in c["p"]], T.TYPES[c["ytype"]], c["run"], c["ckm"], c["mhsm"], c["z"], c["D"], c["P"],
+        "alt" if c.get("sm") else "default")
 
 
 def family_i(a):
     cs = []
     for mh in MH_LADDER:
         p = [mh, a["mH"], a["mA"], a["mHp"], 1.0, a["l6"], a["l7"], a["tb"], a["m122"]]
-        cs.append(T.case("M", p, ytype=a["yt"], run=0, ckm=a["ckm"], mhsm="auto", z=(a["zu"], a["zd"], a["zl"]),
+        cs.append(T.case("M", p, ytype=a["yt"], run=0, ckm=a["ckm"], mhsm="auto", sm=SM_SETS[a["sm"]], z=(a["zu"], a["zd"], a["zl"]),
                          D=(a["Du"], a["Dd"], a["Dl"]), P=(a["Pu"], a["Pd"], a["Pl"])))
     return cs
 
 
+HALF = 10.0 ** 0.25
 PERT = (-2, -1, 1, 2)      # m12^2 (1 + j 2^-51): perturbations of the heavy scale far below any physical effect
 
 
-def family_ii(lam, tb, yt, ckm, run):
+def family_ii(lam, tb, yt, ckm, run, smset="default"):
     """4 rungs x (nominal + 4 perturbed copies used to measure the rounding noise of each rung)"""
     z, D, P = YUK_II[yt]
     sbcb = tb / (1.0 + tb * tb)
@@ -114,7 +124,13 @@ def family_ii(lam, tb, yt, ckm, run):
         m122 = M * M * sbcb
         for j in (0,) + PERT:
             p = [lam["l%d" % i] for i in range(1, 8)] + [tb, m122 * (1.0 + j * 2.0 ** -51)]
-            cs.append(T.case("G", p, ytype=yt, run=run, ckm=ckm, mhsm="auto", z=z, D=D, P=P))
+            cs.append(T.case("G", p, ytype=yt, run=run, ckm=ckm, mhsm="auto", sm=SM_SETS[smset], z=z, D=D, P=P))
+    # half-step rungs M_n 10^(1/4): used only as additional anchors of the envelope (a contribution with two
+    # zeros, one near 1 TeV and one near 3 TeV, is accidentally small at two rungs of the main ladder)
+    for M in M_LADDER[:3]:
+        Mh = M * HALF
+        p = [lam["l%d" % i] for i in range(1, 8)] + [tb, Mh * Mh * sbcb]
+        cs.append(T.case("G", p, ytype=yt, run=run, ckm=ckm, mhsm="auto", sm=SM_SETS[smset], z=z, D=D, P=P))
     return cs
 
 
@@ -206,8 +222,12 @@ def check_ii(cs, rs, out):
             if a[n] > 0:
                 st["ii:max noise/|a| %s n=%d" % (name, n)] = max(st.get("ii:max noise/|a| %s n=%d" % (name, n), 0.0), noise[n] / a[n])
 
+        # anchors: (position on the ladder in units of sqrt(10)-steps, |a|): main rungs 0,1,2,3 and half steps 0.5,1.5,2.5
+        anchors = [(float(n), a[n]) for n in range(4)] + [(n + 0.5, abs(rs[4 * nper + n].A[idx])) for n in range(3)]
+
         def E(m, kmin):
-            return a[m] <= max(RATIO ** (m - k) * a[k] for k in range(kmin, m))
+            """|a_m| <= 0.45^(m-k) |a_k| for some earlier anchor k >= kmin (power law through the steps)"""
+            return a[m] <= max(RATIO ** (m - k) * ak for k, ak in anchors if kmin <= k < m)
 
         def noisy(q):
             """only the bosonic part has a rounding-noise floor (documented finding): below 2e-15,
@@ -215,7 +235,8 @@ def check_ii(cs, rs, out):
             return name == "2LB" and (a[q] < NOISE or not resolved[q])
 
         literal_ok = True
-        lad = "a_%s = %s at M = %s" % (name, ["%.4g" % x for x in sg], ["%.5g" % M for M in M_LADDER])
+        lad = "a_%s = %s at M = %s (half steps: %s)" % (name, ["%.4g" % x for x in sg], ["%.5g" % M for M in M_LADDER],
+                                                        ["%.4g" % rs[4 * nper + n].A[idx] for n in range(3)])
         step_fail = [not (a[n + 1] <= RATIO * a[n]) for n in range(3)]
         for n in range(3):
             if not step_fail[n]:
@@ -259,8 +280,10 @@ def check_ii(cs, rs, out):
         out["keys"].add(("ii-any", name, cs[0]["ytype"], cs[0]["p"][7]))
 
 
-def eval_families(jobs):
-    """jobs: list of (part, [cases]).  returns dict"""
+def eval_families(arg):
+    """arg: (jobs, history); jobs: list of (part, [cases]).  returns dict"""
+    jobs, history = arg if isinstance(arg, tuple) else (arg, False)
+    jobs = [expand(jb) for jb in jobs]
     cases_i, cases_ii = [], []
     for part, cs in jobs:
         if part == "i":
@@ -269,8 +292,16 @@ def eval_families(jobs):
             cases_ii += cs
     res_i = T.run_cases(cases_i, "SATY") if cases_i else []
     res_ii = T.run_cases(cases_ii, "SA") if cases_ii else []
-    out = dict(fam=0, thrown=0, massless=0, fails=[], keys=set(), evals=2 * (len(cases_i) + len(cases_ii)), stats={}, noise=0,
-               first_rung=0, zero_crossing=0, ex_first_rung=None, ex_zero_crossing=None)
+    out = dict(fam=0, thrown=0, massless=0, fails=[], keys=set(), evals=2 * (len(cases_i) + len(cases_ii)) * (2 if history else 1), stats={}, noise=0,
+               first_rung=0, zero_crossing=0, ex_first_rung=None, ex_zero_crossing=None,
+               smsets=len(set(bool(c_.get("sm")) for c_ in cases_i + cases_ii)))
+    if history:
+        for cases_, ops_, res_ in ((cases_i, "SATY", res_i), (cases_ii, "SA", res_ii)):
+            if len(cases_) > 1:
+                for i, what in T.history_mismatches(cases_, ops_, res_):
+                    other = next((c_ for c_ in cases_ if c_.get("sm") != cases_[i].get("sm")), cases_[0 if i else -1])
+                    out["fails"].append(("history-dependence", "result depends on what was constructed before in the same process: %s; %s" % (what, brief(cases_[i])),
+                                         [other, cases_[i]]))
     ki = kii = 0
     for part, cs in jobs:
         if part == "i":
@@ -293,30 +324,41 @@ def eval_families(jobs):
     return out
 
 
+def expand(job):
+    """compact job -> (part, [cases]); compact: ('i', values in DIMS_I order) / ('ii', lambda values, tb, type, ckm, run, SM set)"""
+    if isinstance(job[1], list):
+        return job
+    if job[0] == "i":
+        return ("i", family_i(dict(zip(DIMS_I, job[1]))))
+    return ("ii", family_ii(dict(zip(DIMS_L, job[1])), job[2], job[3], job[4], job[5], job[6]))
+
+
 def families_i(d):
+    """compact jobs (expanded in the workers)"""
     seen = set()
     for b in BASES_I:
         for a, combo in T.devprod(DIMS_I, b, ALPHA_I, d):
-            k = json.dumps(a, sort_keys=True)
-            if k in seen:
+            vals = tuple(a[k] for k in DIMS_I)
+            if vals in seen:
                 continue
-            seen.add(k)
-            yield ("i", family_i(a))
+            seen.add(vals)
+            yield ("i", vals)
 
 
 def families_ii(d, ckms, runs):
     seen = set()
     for b in BASES_L:
         for lam, combo in T.devprod(DIMS_L, b, ALPHA_L, d):
-            k = json.dumps(lam, sort_keys=True)
-            if k in seen:
+            vals = tuple(lam[k] for k in DIMS_L)
+            if vals in seen:
                 continue
-            seen.add(k)
+            seen.add(vals)
             for tb in TB_II:
                 for yt in (1, 2, 3, 4, 5, 6):
                     for ckm in ckms:
                         for run in runs:
-                            yield ("ii", family_ii(lam, tb, yt, ckm, run))
+                            for smset in (("default", "alt") if ckm == 1 else ("default",)):
+                                yield ("ii", vals, tb, yt, ckm, run, smset)
 
 
 def run(ctx):
@@ -328,11 +370,15 @@ def run(ctx):
     tot = dict(fam_i=len(jobs_i), fam_ii=len(jobs_ii), thrown_i=0, thrown_ii=0, massless=0, evals=0, noise=0, first_rung=0, zero_crossing=0)
     examples = {}
     stats = {}
-    for part, cs in jobs_i[:1] + jobs_ii[:1]:
+    min_sm = 2
+    for part, cs in [expand(jb) for jb in jobs_i[:1] + jobs_ii[:1]]:
         ctx.sample("(%s) %s ... %s" % (part, brief(cs[0]), brief(cs[-1])))
     with mp.Pool(min(16, os.cpu_count() or 4)) as pool:
         for name, jobs in (("i", jobs_i), ("ii", jobs_ii)):
-            for o in pool.imap(eval_families, T.chunks(jobs, 60)):
+            # strided chunks: both SM input sets interleaved in every harness process; every 4th process
+            # is repeated in reversed order and compared bitwise
+            for o in pool.imap(eval_families, [(ch, q % 4 == 0) for q, ch in enumerate(T.strided_chunks(jobs, 60))]):
+                min_sm = min(min_sm, o["smsets"])
                 tot["thrown_" + name] += o["thrown"]
                 tot["massless"] += o["massless"]
                 tot["first_rung"] += o["first_rung"]
@@ -347,10 +393,13 @@ def run(ctx):
                 for key in sorted(o["keys"]):
                     ctx.nontrivial(key)
                 for key, what, cs in o["fails"]:
-                    ctx.fail(key, what, {"part": name, "cases": cs})
+                    ctx.fail(key, what, {"part": "h" if key == "history-dependence" else name, "cases": cs})
                 if ctx.out_of_time(name):
                     break
     ctx.evals(tot["evals"])
+    ctx.note("min_SM_input_sets_per_harness_process", min_sm)
+    if min_sm < 2:
+        ctx.cap("a harness process saw only one SM input set")
     ctx.add("literal_step_failures_at_zero_crossing", tot["zero_crossing"])
     ctx.add("literal_step_failures_first_rung", tot["first_rung"])
     if "ex_zero_crossing" in examples:
@@ -369,10 +418,11 @@ def run(ctx):
         "(i) 'identical' = spread along the m_h ladder <= 1e-12 x sum of |terms| (h, H, A, H+, SM pieces as split by the library)",
         "(ii) decision = finite + envelope |a_m| <= max_k 0.45^(m-k)|a_k| + literal decoupling from 3.16 TeV on when the first step fails; literal per-step failures at a zero crossing / on the first rung are counted, not reported",
         "(ii) step failures of the bosonic part with |a| < 2e-15 or within 8x the measured rounding noise are the known rounding-noise finding (2LB only); every other failure of the decision is a violation",
+        "the SM input set (default / complete alternate set: MW, MZ, alpha_em, alpha_s, fermion masses) is a dimension of (i) and a factor of (ii); every harness process evaluates both sets interleaved, every 4th process is repeated in reversed order and compared bitwise",
         "SM Higgs mass is set to the model's own Mhh(0) by a second construction (harness option mhsm=auto)"]
     return ctx.finish(
-        "(i) all assignments with <= %d deviating dimensions from 3 base points (heavy masses, tan(beta), lambda_6/7, m12^2, type, CKM, zeta/Delta/Pi) x m_h ladder; "
-        "(ii) lambda in {-2,-0.5,0,0.5,2}^7 with <= %d deviations from 3 base points x tan(beta) {0.3,1,3,50} x 6 types x M ladder {1,3.16,10,31.6} TeV; "
+        "(i) all assignments with <= %d deviating dimensions from 3 base points (heavy masses, tan(beta), lambda_6/7, m12^2, type, CKM, zeta/Delta/Pi, SM input set) x m_h ladder; "
+        "(ii) lambda in {-2,-0.5,0,0.5,2}^7 with <= %d deviations from 3 base points x tan(beta) {0.3,1,3,50} x 6 types x 2 SM input sets (alternate set with the default CKM only) x M ladder {1,3.16,10,31.6} TeV; "
         "distinct = (part, component, type, tan(beta) class / value, sign of a_mu) of families that passed non-trivially"
         % ((2, 1) if ctx.quick else (3, 2)),
         {"families_i": tot["fam_i"], "families_ii": tot["fam_ii"], "rejected_i": tot["thrown_i"], "rejected_ii": tot["thrown_ii"],
@@ -384,6 +434,15 @@ def replay(ctx, path):
     T.exe()
     d = json.load(open(path))
     part, cs = d["data"]["part"], d["data"]["cases"]
+    if part == "h":
+        bad = T.history_mismatches(cs, "SA", T.run_cases(cs, "SA"))
+        for i, what in bad:
+            print("replay: [history-dependence] %s" % what)
+        if bad:
+            print("VIOLATION property=C10 replay=%s" % path)
+            return 1
+        print("replay: holds now")
+        return 0
     o = eval_families([(part, cs)])
     hit = [f for f in o["fails"] if f[0] == d["key"]] or [f for f in o["fails"] if "|a|<2e-15" not in f[0]]
     for key, what, _ in hit:
